@@ -86,6 +86,7 @@ def run_acceptor(traces, verdict, pid, max_report=3, exe=None):
     reasons = {}
     unrepro = {}
     repaired = {}
+    reported = 0
     for l in out.splitlines():
         f = l.split(None, 4) if not "\t" in l else l.split("\t")
         if not f:
@@ -98,18 +99,24 @@ def run_acceptor(traces, verdict, pid, max_report=3, exe=None):
             sc, r, lines = idx.get(f[1], (None, None, None))
             reason = f[-1]
             reasons[reason] = reasons.get(reason, 0) + 1
+            reproduced = True
             if lines is not None and reason in _ORDER_CODES and _log_order_repair(modelrun, lines):
                 repaired[reason] = repaired.get(reason, 0) + 1
                 continue
             if sc is not None and exe is not None and rej <= 12:
-                # a rejection is re-run (same scenario, alone) before it is reported: scheduling-dependent traces that do
-                # not reproduce in 3 further runs are counted, not reported (the outcome oracles judge every run anyway)
+                # a rejection is re-run (same scenario, alone): one that does not reproduce in 3 further runs is counted per reason
+                # code; with a STORE-CHECK code (S_*, N_*, ...) it is not reported (environment / scheduling artefact; the outcome
+                # oracles judge every run anyway), with a CLIENT-RULE code (R*) it is reported all the same: since the gate
+                # serialises store call + deliver line (docs/TXN.md) the log cannot have produced it
                 again = txnlab.run_scenarios(exe, [dict(sc, id=f"{sc['id']}-again{i}") for i in range(3)], jobs=3)
                 if not any(_accept_one(modelrun, sc, r2) == reason for r2 in again if not r2.get("fatal")):
                     unrepro[reason] = unrepro.get(reason, 0) + 1
-                    continue
-            if rej - sum(unrepro.values()) - sum(repaired.values()) <= max_report and sc is not None:
-                verdict.violation({"kind": "request-stream-rule", "rule": reason, "rejected_event_index": f[2], "rejected_event": f[3:-1],
+                    reproduced = False
+                    if not reason.startswith("R"):
+                        continue
+            if reported < max_report and sc is not None:
+                reported += 1
+                verdict.violation({"kind": "request-stream-rule", "rule": reason, "reproduced_in_rerun": reproduced, "rejected_event_index": f[2], "rejected_event": f[3:-1],
                                    "scenario": sc, "events": lines[: int(f[2]) + 1][-60:] if f[2].isdigit() else lines[-60:]})
     # final abstract state of the acceptor vs the real store's MVCC records (ties the per-transaction store abstraction)
     cmp_n = cmp_bad = 0
